@@ -31,7 +31,7 @@ def cases(tier, seed):
         special = min(min(h - l for l, h in zip(lo, hi)) for lv in d["levels"] for lo, hi in lv) == 0 or d["domain"][0] > 1000
         if tier == "quick" and special and c.get("devlevel") is not None and nf != 2:
             continue
-        for payload in (["hostile", "hostile_nonan"] if d["payload"] == "hostile" else ["coded"]):
+        for payload in (["hostile", "hostile_nonan", "huge"] if d["payload"] == "hostile" else ["coded"]):
             d2 = dict(d)
             d2["payload"] = payload
             k = h64(d2)
@@ -49,7 +49,11 @@ def run_case(case, workdir):
     desc = case["desc"]
     path, ref = build(desc, workdir)
     dh = h64(desc)
-    for limit in [None] + list(range(ref.nlevels)):
+    # shallow-first or deep-first, depending on the case: process-lifetime state must not care which comes first
+    limits = [None] + list(range(ref.nlevels))
+    if dh % 2:
+        limits = list(range(ref.nlevels)) + [None]
+    for limit in limits:
         for (bh, bs, bd, bc) in OPTS:
             if bd and desc["payload"] == "hostile":
                 continue       # NaN payload x binary_data: undefined min/max rows, no demand
